@@ -214,6 +214,8 @@ class C09(Prop):
 
     def gen(self, rng, tier, seed):
         cfg = gen.gen_base_cfg(rng, seed, max_age_p=0.1,
+                               stop_children_p=0.2,
+                               kids=rng.random() < 0.15,
                                stop_signals=(15, 15, 15, 2, 10),
                                respawn=rng.choice([True, True, True, False]),
                                kinds=('obedient', 'slow',
